@@ -19,7 +19,7 @@ func init() {
 type lockUser struct {
 	name  string
 	dir   string
-	model map[string]bool // paths this client believes it holds (reference model)
+	model map[string]bool   // paths this client believes it holds (reference model)
 	ids   map[string]string // path -> id of the lock granted to this client
 	// foreignSeen: locks of the other user that this client's last complete
 	// verifiable listing returned under "theirs"
@@ -124,8 +124,30 @@ func runC16(c *Ctx, faults bool) {
 		p := lockPaths[t.Choose(len(lockPaths), "path")]
 		evBefore := len(locks.Events)
 		switch t.Choose(12, "lock-op") {
-		case 0, 1, 2: // lock
-			_, code := w.Git(u.dir, "lfs", "lock", p)
+		case 0, 1, 2: // lock (sometimes two paths in one command)
+			lockArgs := []string{"lfs", "lock", p}
+			p2 := ""
+			if t.Bool(1, 4, "lock-two-paths") {
+				p2 = lockPaths[t.Choose(len(lockPaths), "path2")]
+				if p2 != p {
+					lockArgs = append(lockArgs, p2)
+				} else {
+					p2 = ""
+				}
+			}
+			_, code := w.Git(u.dir, lockArgs...)
+			if p2 != "" {
+				if c.sawEvent(locks, evBefore, "granted", u.name, p2) {
+					delete(u.bitStale, p2)
+					u.ids[p2] = c.eventID(locks, evBefore, "granted", u.name, p2)
+					u.model[p2] = true
+					c.Probe("lock-granted")
+				}
+				code = 0 // the exit status of a two-path lock is not judged per path
+				if !c.sawEvent(locks, evBefore, "granted", u.name, p) {
+					code = 1
+				}
+			}
 			granted := c.sawEvent(locks, evBefore, "granted", u.name, p)
 			if code == 0 && !granted {
 				c.Violation("lock-reported-without-grant", "%s: git lfs lock %s exited 0 but the server granted nothing", u.name, p)
@@ -158,8 +180,20 @@ func runC16(c *Ctx, faults bool) {
 			default:
 				args = append(args, p)
 			}
+			// sometimes the file is gone from the working tree when its lock is released
+			removedFile := false
+			if kind == 0 && heldBy == u.name && !isDirty(w, u.dir, p) && t.Bool(1, 5, "unlock-absent-file") {
+				w.Git(u.dir, "rm", "-q", "--cached", "--", p)
+				os.Remove(filepath.Join(u.dir, p))
+				w.Git(u.dir, "commit", "-q", "-m", "remove "+p, "--", p)
+				removedFile = true
+			}
 			dirty := isDirty(w, u.dir, p)
 			_, code := w.Git(u.dir, args...)
+			if removedFile {
+				// bring the file back so that later steps have something to look at
+				w.Git(u.dir, "revert", "--no-edit", "HEAD")
+			}
 			released := c.sawEvent(locks, evBefore, "released", u.name, p)
 			if released {
 				delete(u.bitStale, p)
@@ -312,14 +346,20 @@ func isAnyDirty(w *World, dir string) bool {
 func (c *Ctx) pushWithLocks(w *World, locks *sim.Locks, u, other *lockUser, remote, verifySetting string, evBefore int) {
 	// which paths do the commits to be pushed touch?
 	w.GitQ(u.dir, "fetch", "-q", "origin")
-	changed, _ := w.GitQ(u.dir, "diff", "--name-only", "origin/main", "HEAD")
+	changedZ, _ := w.GitQ(u.dir, "diff", "--name-only", "-z", "origin/main", "HEAD")
+	var changedPaths []string
+	for _, p := range strings.Split(changedZ, "\x00") {
+		if p != "" {
+			changedPaths = append(changedPaths, p)
+		}
+	}
 	ahead, _ := w.GitQ(u.dir, "rev-list", "--count", "origin/main..HEAD")
 	behind, _ := w.GitQ(u.dir, "rev-list", "--count", "HEAD..origin/main")
 	if strings.TrimSpace(behind) != "0" {
 		return // would be a non-fast-forward: not this property's business
 	}
 	var touchesForeign []string
-	for _, p := range strings.Fields(changed) {
+	for _, p := range changedPaths {
 		if l, ok := locks.Table[p]; ok && l.Owner.Name == other.name {
 			touchesForeign = append(touchesForeign, p)
 		}
@@ -349,7 +389,7 @@ func (c *Ctx) pushWithLocks(w *World, locks *sim.Locks, u, other *lockUser, remo
 		}
 	}
 	if len(touchesForeign) == 0 && code != 0 && strings.Contains(out, "Cannot update locked files") {
-		c.Violation("push-rejected-for-own-lock", "%s: push was rejected for locked files although none of the changed paths %v is locked by another user; output: %s", u.name, strings.Fields(changed), clipStr(out, 200))
+		c.Violation("push-rejected-for-own-lock", "%s: push was rejected for locked files although none of the changed paths %v is locked by another user; output: %s", u.name, changedPaths, clipStr(out, 200))
 	}
 }
 
